@@ -9,7 +9,7 @@
 From Coq Require Import ZArith List Bool Permutation.
 From GT Require Import Base.LogConc.
 From GT Require Import Base.LogConcProofs.
-From GT Require Import LogCtxModel LogCtxProofs.
+From GT Require Import LogCtxModel LogCtxProofs LogCtxJudge LogCtxJudgeProofs.
 Import ListNotations.
 Local Open Scope Z_scope.
 
@@ -62,6 +62,18 @@ Example C18_example_seq :
   /\ emit (log_of (run core_with (Base 0 []) ops) 0) (-1) = [].
 Proof. vm_compute. repeat split. Qed.
 
+(* beyond the property's operation list: the global logger replaced between operations
+   (OSetGlobal, zap.ReplaceGlobals).  C18_seq covers such sequences too: holder-less contexts
+   follow the new global, holders created earlier keep what they inherited, InitLogger after
+   the replacement inherits from the new global. *)
+Example C18_example_global :
+  let ops := [OInit 0 [1%N]; OSetGlobal (Base (-1) [7%N]); OWith 1 [2%N]; OInit 0 [3%N]] in
+  emit (log_of (run core_with (Base 1 []) ops) 0) (-1) = [[7%N]]
+  /\ emit (log_of (run core_with (Base 1 []) ops) 1) 0 = []
+  /\ emit (log_of (run core_with (Base 1 []) ops) 1) 1 = [[1%N; 2%N]]
+  /\ emit (log_of (run core_with (Base 1 []) ops) 4) (-1) = [[7%N; 3%N]].
+Proof. vm_compute. repeat split. Qed.
+
 (* the pinned code (wrapper core without its own With) violates C18_seq — kept as a record *)
 Theorem C18_seq_orig_refuted : exists g ops c l,
   emit (log_of (run core_with_orig g ops) c) l <> semit (slogger_of (srun (abs g) ops) c) l.
@@ -109,6 +121,73 @@ Theorem C18_conc_prefix : forall c0 progs sched st tr,
   /\ exists rest, Permutation (untag cop tr ++ rest) (concat progs).
 Proof. exact conc_prefix. Qed.
 
+(* ------------------------------------------------------------------ progress *)
+(* reachable state = state after any schedule from the initial one.  [cops_of t st] are the
+   operations thread t has not completed yet, [occ t sched] how often sched schedules t.
+   Lock-freedom: in any stretch of any schedule that gives a goroutine with a pending
+   WithFields/SetLevel three micro-steps, that call takes effect — or another goroutine's
+   call does: the system as a whole always makes progress.                                  *)
+Theorem C18_conc_progress_lockfree : forall c0 progs sched0 st tr0 t o rest sched st' tr',
+  crun (cinit c0 progs) sched0 = (st, tr0) ->
+  cops_of t st = o :: rest -> (3 <= occ t sched)%nat ->
+  crun st sched = (st', tr') ->
+  In (t, o) tr' \/ exists t' o', t' <> t /\ In (t', o') tr'.
+Proof. exact conc_lockfree. Qed.
+
+(* Obstruction-freedom of the retry loop: if no OTHER goroutine's call takes effect in a
+   stretch that gives t three micro-steps (others may load, fail, or do nothing), t's call
+   completes within it — at most: failed CompareAndSwap, Load, CompareAndSwap.               *)
+Theorem C18_conc_progress_obstruction_free : forall c0 progs sched0 st tr0 t o rest sched st' tr',
+  crun (cinit c0 progs) sched0 = (st, tr0) ->
+  cops_of t st = o :: rest -> (3 <= occ t sched)%nat ->
+  crun st sched = (st', tr') ->
+  (forall e, In e tr' -> fst e = t) ->
+  In (t, o) tr'.
+Proof. exact conc_obstruction_free. Qed.
+
+(* running alone, a call completes within three of its own micro-steps *)
+Theorem C18_conc_progress_solo : forall c0 progs sched0 st tr0 t o rest st' tr',
+  crun (cinit c0 progs) sched0 = (st, tr0) ->
+  cops_of t st = o :: rest ->
+  crun st (repeat t 3) = (st', tr') -> In (t, o) tr'.
+Proof. exact conc_solo. Qed.
+
+(* a failed CompareAndSwap is somebody else's success: from the Load of a call to its next
+   CompareAndSwap, whatever is scheduled in between, either the CompareAndSwap succeeds or a
+   call of another goroutine was linearised since the Load *)
+Theorem C18_conc_progress_failed_cas : forall c0 progs sched0 st tr0 t th o rest mid st' tr',
+  crun (cinit c0 progs) sched0 = (st, tr0) ->
+  nth_error (m_threads st) t = Some th -> t_ops th = o :: rest -> t_pc th = 0%nat ->
+  crun st (t :: mid ++ [t]) = (st', tr') ->
+  In (t, o) tr' \/ exists t' o', t' <> t /\ In (t', o') tr'.
+Proof. exact conc_failed_cas. Qed.
+
+(* non-vacuity of the progress hypotheses: a reachable state in which thread 0 holds a stale
+   pointer (thread 1 updated after its Load) and still has its call pending *)
+Example C18_example_progress :
+  let st := fst (crun (cinit (Base 0 []) [[CWith [1%N]]; [CWith [2%N]]]) [0; 1; 1]%nat) in
+  cops_of 0 st = [CWith [1%N]]
+  /\ snd (crun st [0; 0; 0]%nat) = [(0%nat, CWith [1%N])]
+  /\ snd (crun st [0; 0]%nat) = [].
+Proof. vm_compute. repeat split. Qed.
+
+(* ------------------------------------------------------------------ the judge's predicate *)
+(* [final_ok] is what ./check C18 applies to the final probe of the REAL code after a replayed
+   or free-running concurrent run (LogCtxJudge.v).  It is a consequence of the theorems above:
+   for every initial logger, program set and schedule (levels Debug..Error, the property's
+   quantifier) with all goroutines returned, every probe showing the model's final logger
+   passes it.  So a verdict 1 means the real code left the set of behaviours the proved model
+   can show — never a demand beyond the property.                                            *)
+Theorem C18_judge_final_ok_sound : forall c0 progs sched st tr final,
+  crun (cinit c0 progs) sched = (st, tr) -> all_returned cop core st = true ->
+  clevel c0 <= 2 -> (forall p l, In p progs -> In (CSetLevel l) p -> l <= 2) ->
+  expand final = probe (snd (m_cell st)) ->
+  final_ok c0 progs final = true.
+Proof. exact final_ok_sound. Qed.
+
+(* the sequential judge compares with [srun_obs] itself, which C18_seq_table proves equal to
+   the model's table; nothing further is needed there *)
+
 (* non-vacuity: three goroutines, a schedule with failing CompareAndSwaps, all return *)
 Example C18_example_conc :
   let r := crun (cinit (Wrap (Base 0 [9%N]) 1) [[CWith [1%N]; CSetLevel (-1)]; [CWith [2%N]]; [CWith []; CWith [3%N]]])
@@ -155,3 +234,8 @@ Print Assumptions C18_conc_linearisable.
 Print Assumptions C18_conc_prefix.
 Print Assumptions C18_conc_orig_refuted.
 Print Assumptions C18_conc_orig_level_refuted.
+Print Assumptions C18_conc_progress_lockfree.
+Print Assumptions C18_conc_progress_obstruction_free.
+Print Assumptions C18_conc_progress_solo.
+Print Assumptions C18_conc_progress_failed_cas.
+Print Assumptions C18_judge_final_ok_sound.
